@@ -1,1 +1,466 @@
+//! E4 — LSP client for the real `harper-ls` binary (black box over stdio) with schedule control.
+//!
+//! Every document update in harper-ls awaits a `workspace/configuration` round trip. In manual
+//! mode the client queues those requests and the test decides in which order they are answered,
+//! which is the order in which the concurrently running handlers complete.
 
+use std::collections::{HashMap, VecDeque};
+use std::io::{BufRead, BufReader, Read, Write};
+use std::path::{Path, PathBuf};
+use std::process::{Child, ChildStdin, Command, Stdio};
+use std::sync::mpsc::{Receiver, RecvTimeoutError, channel};
+use std::time::{Duration, Instant};
+
+use serde_json::{Value, json};
+
+pub fn ls_binary() -> PathBuf {
+    PathBuf::from(
+        std::env::var("HV_LS_BIN").unwrap_or_else(|_| "/verif/target/ls/release/harper-ls".into()),
+    )
+}
+
+#[derive(Debug, Clone, PartialEq)]
+pub struct Diag {
+    pub start: (u32, u32),
+    pub end: (u32, u32),
+    pub message: String,
+    pub severity: i64,
+}
+
+impl Diag {
+    fn from_json(v: &Value) -> Diag {
+        let p = |x: &Value| {
+            (
+                x["line"].as_u64().unwrap_or(0) as u32,
+                x["character"].as_u64().unwrap_or(0) as u32,
+            )
+        };
+        Diag {
+            start: p(&v["range"]["start"]),
+            end: p(&v["range"]["end"]),
+            message: v["message"].as_str().unwrap_or("").to_string(),
+            severity: v["severity"].as_i64().unwrap_or(0),
+        }
+    }
+    pub fn key(&self) -> String {
+        format!(
+            "{:05}:{:05}-{:05}:{:05} s{} {}",
+            self.start.0, self.start.1, self.end.0, self.end.1, self.severity, self.message
+        )
+    }
+}
+
+#[derive(Debug)]
+pub enum LspError {
+    Timeout(String),
+    Died(String),
+    Protocol(String),
+}
+
+impl std::fmt::Display for LspError {
+    fn fmt(&self, f: &mut std::fmt::Formatter<'_>) -> std::fmt::Result {
+        match self {
+            LspError::Timeout(s) => write!(f, "timeout: {s}"),
+            LspError::Died(s) => write!(f, "server died: {s}"),
+            LspError::Protocol(s) => write!(f, "protocol: {s}"),
+        }
+    }
+}
+
+pub struct Sandbox {
+    pub root: PathBuf,
+}
+
+impl Sandbox {
+    /// A fresh sandbox directory under /verif/work (HOME, XDG dirs, workspace, dictionaries).
+    pub fn new(tag: &str) -> Sandbox {
+        static N: std::sync::atomic::AtomicU64 = std::sync::atomic::AtomicU64::new(0);
+        let n = N.fetch_add(1, std::sync::atomic::Ordering::Relaxed);
+        let root = Path::new(crate::core::VERIF_DIR)
+            .join("work")
+            .join(format!("sb-{}-{}-{}", tag, std::process::id(), n));
+        let _ = std::fs::remove_dir_all(&root);
+        for d in ["home", "config", "data", "ws", "dicts", "filedicts"] {
+            let _ = std::fs::create_dir_all(root.join(d));
+        }
+        Sandbox { root }
+    }
+    pub fn user_dict(&self) -> PathBuf {
+        self.root.join("dicts/user.txt")
+    }
+    pub fn file_dict_dir(&self) -> PathBuf {
+        self.root.join("filedicts")
+    }
+    pub fn stats(&self) -> PathBuf {
+        self.root.join("data/stats.txt")
+    }
+    pub fn ws_file(&self, name: &str) -> PathBuf {
+        self.root.join("ws").join(name)
+    }
+    pub fn uri(&self, name: &str) -> String {
+        format!("file://{}", self.ws_file(name).display())
+    }
+    /// settings object answered to workspace/configuration
+    pub fn settings(&self, extra: Value) -> Value {
+        let mut base = json!({
+            "userDictPath": self.user_dict().to_string_lossy(),
+            "fileDictPath": self.file_dict_dir().to_string_lossy(),
+            "statsPath": self.stats().to_string_lossy(),
+        });
+        if let (Some(b), Some(e)) = (base.as_object_mut(), extra.as_object()) {
+            for (k, v) in e {
+                b.insert(k.clone(), v.clone());
+            }
+        }
+        json!({"harper-ls": base})
+    }
+}
+
+impl Drop for Sandbox {
+    fn drop(&mut self) {
+        if std::env::var("HV_KEEP_SANDBOX").is_err() {
+            let _ = std::fs::remove_dir_all(&self.root);
+        }
+    }
+}
+
+pub struct Server {
+    child: Child,
+    stdin: ChildStdin,
+    rx: Receiver<Value>,
+    next_id: i64,
+    /// answer to workspace/configuration
+    pub settings: Value,
+    /// manual schedule mode: queue config requests instead of answering them
+    pub manual: bool,
+    pub pending_config: VecDeque<Value>,
+    /// every publication in arrival order: (uri, diagnostics)
+    pub publications: Vec<(String, Vec<Diag>)>,
+    responses: HashMap<i64, Value>,
+    pub config_requests_seen: usize,
+    pub log: Vec<String>,
+}
+
+fn read_message(r: &mut impl BufRead) -> Option<Value> {
+    let mut len = 0usize;
+    loop {
+        let mut line = String::new();
+        if r.read_line(&mut line).ok()? == 0 {
+            return None;
+        }
+        let line = line.trim_end();
+        if line.is_empty() {
+            break;
+        }
+        if let Some(v) = line.strip_prefix("Content-Length:") {
+            len = v.trim().parse().ok()?;
+        }
+    }
+    let mut buf = vec![0u8; len];
+    r.read_exact(&mut buf).ok()?;
+    serde_json::from_slice(&buf).ok()
+}
+
+impl Server {
+    /// `wrapper`: optional command prefix (e.g. strace ...) put before the server binary.
+    pub fn start(sb: &Sandbox, settings: Value, wrapper: Option<Vec<String>>) -> Result<Server, LspError> {
+        Self::start_mode(sb, settings, wrapper, false)
+    }
+
+    pub fn start_mode(
+        sb: &Sandbox,
+        settings: Value,
+        wrapper: Option<Vec<String>>,
+        manual: bool,
+    ) -> Result<Server, LspError> {
+        let bin = ls_binary();
+        let mut cmd = match &wrapper {
+            Some(w) => {
+                let mut c = Command::new(&w[0]);
+                c.args(&w[1..]);
+                c.arg(&bin);
+                c
+            }
+            None => Command::new(&bin),
+        };
+        cmd.arg("--stdio")
+            .env("HOME", sb.root.join("home"))
+            .env("XDG_CONFIG_HOME", sb.root.join("config"))
+            .env("XDG_DATA_HOME", sb.root.join("data"))
+            .env("XDG_CACHE_HOME", sb.root.join("home/.cache"))
+            .env_remove("RUST_LOG")
+            .current_dir(sb.root.join("ws"))
+            .stdin(Stdio::piped())
+            .stdout(Stdio::piped())
+            .stderr(Stdio::null());
+        let mut child = cmd
+            .spawn()
+            .map_err(|e| LspError::Died(format!("cannot start {}: {e}", bin.display())))?;
+        let stdin = child.stdin.take().unwrap();
+        let stdout = child.stdout.take().unwrap();
+        let (tx, rx) = channel();
+        std::thread::spawn(move || {
+            let mut r = BufReader::new(stdout);
+            while let Some(m) = read_message(&mut r) {
+                if tx.send(m).is_err() {
+                    break;
+                }
+            }
+        });
+        let mut s = Server {
+            child,
+            stdin,
+            rx,
+            next_id: 1,
+            settings,
+            manual: false,
+            pending_config: VecDeque::new(),
+            publications: vec![],
+            responses: HashMap::new(),
+            config_requests_seen: 0,
+            log: vec![],
+        };
+        let id = s.request(
+            "initialize",
+            json!({"processId": null, "rootUri": format!("file://{}", sb.root.join("ws").display()), "capabilities": {"workspace": {"configuration": true, "didChangeWatchedFiles": {"dynamicRegistration": true}}}}),
+        )?;
+        s.wait_response(id, Duration::from_secs(60))?;
+        s.notify("initialized", json!({}))?;
+        // `initialized` pulls the configuration once and registers a file watcher
+        let seen = s.config_requests_seen;
+        s.pump_until(Duration::from_secs(60), "initial configuration pull", |s| {
+            s.config_requests_seen > seen
+        })?;
+        s.manual = manual;
+        Ok(s)
+    }
+
+    fn send(&mut self, v: &Value) -> Result<(), LspError> {
+        let body = v.to_string();
+        let msg = format!("Content-Length: {}\r\n\r\n{}", body.len(), body);
+        self.stdin
+            .write_all(msg.as_bytes())
+            .and_then(|_| self.stdin.flush())
+            .map_err(|e| LspError::Died(format!("write failed: {e}")))
+    }
+
+    pub fn notify(&mut self, method: &str, params: Value) -> Result<(), LspError> {
+        self.send(&json!({"jsonrpc": "2.0", "method": method, "params": params}))
+    }
+
+    pub fn request(&mut self, method: &str, params: Value) -> Result<i64, LspError> {
+        let id = self.next_id;
+        self.next_id += 1;
+        self.send(&json!({"jsonrpc": "2.0", "id": id, "method": method, "params": params}))?;
+        Ok(id)
+    }
+
+    fn handle(&mut self, m: Value) -> Result<(), LspError> {
+        if let Some(method) = m.get("method").and_then(|x| x.as_str()) {
+            match method {
+                "workspace/configuration" => {
+                    self.config_requests_seen += 1;
+                    if self.manual {
+                        self.pending_config.push_back(m["id"].clone());
+                    } else {
+                        let id = m["id"].clone();
+                        self.answer_config_id(id)?;
+                    }
+                }
+                "client/registerCapability" | "window/workDoneProgress/create" => {
+                    let id = m["id"].clone();
+                    self.send(&json!({"jsonrpc": "2.0", "id": id, "result": null}))?;
+                }
+                "textDocument/publishDiagnostics" => {
+                    let uri = m["params"]["uri"].as_str().unwrap_or("").to_string();
+                    let diags = m["params"]["diagnostics"]
+                        .as_array()
+                        .map(|a| a.iter().map(Diag::from_json).collect())
+                        .unwrap_or_default();
+                    self.publications.push((uri, diags));
+                }
+                "window/logMessage" | "window/showMessage" => {
+                    self.log.push(m["params"]["message"].as_str().unwrap_or("").to_string());
+                }
+                _ => {
+                    if m.get("id").is_some() {
+                        // unknown request from the server: answer null so it does not block
+                        let id = m["id"].clone();
+                        self.send(&json!({"jsonrpc": "2.0", "id": id, "result": null}))?;
+                    }
+                }
+            }
+        } else if let Some(id) = m.get("id").and_then(|x| x.as_i64()) {
+            self.responses.insert(id, m);
+        }
+        Ok(())
+    }
+
+    fn answer_config_id(&mut self, id: Value) -> Result<(), LspError> {
+        let settings = self.settings.clone();
+        self.send(&json!({"jsonrpc": "2.0", "id": id, "result": [settings]}))
+    }
+
+    /// Manual mode: answer the k-th queued configuration request (0 = oldest).
+    pub fn answer_config(&mut self, k: usize) -> Result<(), LspError> {
+        let Some(id) = self.pending_config.remove(k) else {
+            return Err(LspError::Protocol(format!(
+                "no queued configuration request #{k}"
+            )));
+        };
+        self.answer_config_id(id)
+    }
+
+    /// Process incoming messages until `done` holds.
+    pub fn pump_until(
+        &mut self,
+        timeout: Duration,
+        what: &str,
+        done: impl Fn(&Server) -> bool,
+    ) -> Result<(), LspError> {
+        let t0 = Instant::now();
+        loop {
+            if done(self) {
+                return Ok(());
+            }
+            let left = timeout.checked_sub(t0.elapsed()).unwrap_or(Duration::ZERO);
+            if left.is_zero() {
+                return Err(LspError::Timeout(what.to_string()));
+            }
+            match self.rx.recv_timeout(left.min(Duration::from_millis(200))) {
+                Ok(m) => self.handle(m)?,
+                Err(RecvTimeoutError::Timeout) => {
+                    if let Ok(Some(st)) = self.child.try_wait() {
+                        return Err(LspError::Died(format!("{st} while waiting for {what}")));
+                    }
+                }
+                Err(RecvTimeoutError::Disconnected) => {
+                    return Err(LspError::Died(format!("stdout closed while waiting for {what}")));
+                }
+            }
+        }
+    }
+
+    /// Drain whatever arrives within `d` (stragglers).
+    pub fn settle(&mut self, d: Duration) -> Result<(), LspError> {
+        let t0 = Instant::now();
+        while t0.elapsed() < d {
+            match self.rx.recv_timeout(d.saturating_sub(t0.elapsed()).max(Duration::from_millis(1))) {
+                Ok(m) => self.handle(m)?,
+                Err(RecvTimeoutError::Timeout) => break,
+                Err(RecvTimeoutError::Disconnected) => break,
+            }
+        }
+        Ok(())
+    }
+
+    pub fn wait_response(&mut self, id: i64, timeout: Duration) -> Result<Value, LspError> {
+        self.pump_until(timeout, &format!("response to request {id}"), |s| {
+            s.responses.contains_key(&id)
+        })?;
+        Ok(self.responses.remove(&id).unwrap())
+    }
+
+    pub fn publications_for(&self, uri: &str) -> usize {
+        self.publications.iter().filter(|(u, _)| u == uri).count()
+    }
+
+    pub fn last_publication(&self, uri: &str) -> Option<&Vec<Diag>> {
+        self.publications
+            .iter()
+            .rev()
+            .find(|(u, _)| u == uri)
+            .map(|(_, d)| d)
+    }
+
+    // ---- convenience wrappers (auto-answer mode: wait for the expected publication) ----
+
+    pub fn open(&mut self, uri: &str, lang: &str, text: &str) -> Result<Vec<Diag>, LspError> {
+        let before = self.publications_for(uri);
+        self.notify(
+            "textDocument/didOpen",
+            json!({"textDocument": {"uri": uri, "languageId": lang, "version": 1, "text": text}}),
+        )?;
+        self.pump_until(Duration::from_secs(60), "publication after didOpen", |s| {
+            s.publications_for(uri) > before
+        })?;
+        Ok(self.last_publication(uri).cloned().unwrap_or_default())
+    }
+
+    pub fn change(&mut self, uri: &str, version: i64, text: &str) -> Result<Vec<Diag>, LspError> {
+        let before = self.publications_for(uri);
+        self.notify(
+            "textDocument/didChange",
+            json!({"textDocument": {"uri": uri, "version": version}, "contentChanges": [{"text": text}]}),
+        )?;
+        self.pump_until(Duration::from_secs(60), "publication after didChange", |s| {
+            s.publications_for(uri) > before
+        })?;
+        Ok(self.last_publication(uri).cloned().unwrap_or_default())
+    }
+
+    pub fn close(&mut self, uri: &str) -> Result<(), LspError> {
+        let before = self.publications_for(uri);
+        self.notify("textDocument/didClose", json!({"textDocument": {"uri": uri}}))?;
+        self.pump_until(Duration::from_secs(60), "publication after didClose", |s| {
+            s.publications_for(uri) > before
+        })
+    }
+
+    pub fn execute(&mut self, command: &str, args: Value) -> Result<Value, LspError> {
+        let id = self.request(
+            "workspace/executeCommand",
+            json!({"command": command, "arguments": args}),
+        )?;
+        self.wait_response(id, Duration::from_secs(60))
+    }
+
+    pub fn code_actions(&mut self, uri: &str, start: (u32, u32), end: (u32, u32)) -> Result<Value, LspError> {
+        let id = self.request(
+            "textDocument/codeAction",
+            json!({"textDocument": {"uri": uri}, "range": {"start": {"line": start.0, "character": start.1}, "end": {"line": end.0, "character": end.1}}, "context": {"diagnostics": []}}),
+        )?;
+        let r = self.wait_response(id, Duration::from_secs(60))?;
+        Ok(r["result"].clone())
+    }
+
+    /// shutdown + exit; waits for the process to end
+    pub fn shutdown(mut self) -> Result<(), LspError> {
+        let id = self.request("shutdown", Value::Null)?;
+        let _ = self.wait_response(id, Duration::from_secs(30));
+        let _ = self.notify("exit", Value::Null);
+        let t0 = Instant::now();
+        while t0.elapsed() < Duration::from_secs(10) {
+            if let Ok(Some(_)) = self.child.try_wait() {
+                return Ok(());
+            }
+            std::thread::sleep(Duration::from_millis(10));
+        }
+        let _ = self.child.kill();
+        let _ = self.child.wait();
+        Ok(())
+    }
+
+    pub fn kill(mut self) {
+        let _ = self.child.kill();
+        let _ = self.child.wait();
+    }
+
+    pub fn pid(&self) -> u32 {
+        self.child.id()
+    }
+}
+
+impl Drop for Server {
+    fn drop(&mut self) {
+        let _ = self.child.kill();
+        let _ = self.child.wait();
+    }
+}
+
+/// drain a reader to a string without blocking the caller forever
+pub fn read_all(mut r: impl Read) -> String {
+    let mut s = String::new();
+    let _ = r.read_to_string(&mut s);
+    s
+}
